@@ -325,3 +325,37 @@ Theorem C16_include_moved_source : forall t fs c fname a run b L p Ta ea la Tr e
 Proof. exact include_moved_source. Qed.
 
 Print Assumptions C16_include_moved_source.
+
+(** The same with the include line NESTED: [a] ends inside one or more open constructs ({ } blocks,
+    named scopes, macro bodies, .if / else branches, .for bodies, mixed to any depth;
+    [opens_constructs] says: top-level statements, then a header, the statements before the next
+    header, ..., finally the statements of the innermost body up to the end of [a]). *)
+From A816 Require Import Proofs.IncludeNest2 Proofs.IncludeNest3.
+Theorem C16_include_nested_source :
+  forall (t : live) (fs : srcfiles) (c : config) (fname a run b L p : str)
+  (Ta : list token) (ea : token) (la : list str) (Tr : list token)
+  (ep : token) (lr : list str) (Tb : list token) (eb : token) (lb : list str)
+  (acc0 : list ast) (fr : frame) (rest : list (list ast * frame))
+  (acc1 pr : list ast) (o : output) (fin : rstate),
+  ScannerPos.lexicon_ok (lv_lex t) = true ->
+  ScannerLayout.ends_nl a ->
+  ScannerLayout.ends_nl run ->
+  scan (lv_lex t) fname a = ScanOk (Ta ++ [ea]) la ->
+  scan (lv_lex t) p run = ScanOk (Tr ++ [ep]) lr ->
+  scan (lv_lex t) fname b = ScanOk (Tb ++ [eb]) lb ->
+  include_line (lv_lex t) fname L p ->
+  assoc_str (sf_text fs) p = Some run ->
+  opens_constructs t fs (Ta ++ [ea]) acc0 fr rest acc1 ->
+  parses_alone t fs (Init.Nat.pred include_depth) (Tr ++ [ep]) pr ->
+  inert (cur (Tr ++ Tb ++ [eb]) 0) ->
+  inert (cur (Tb ++ [eb]) 0) ->
+  (last_is_map acc1 = true -> is_ty (cur (Tr ++ Tb ++ [eb]) 0) T_IDENTIFIER = false) ->
+  (last_is_map pr = true -> is_ty (cur (Tb ++ [eb]) 0) T_IDENTIFIER = false) ->
+  assemble_source t fs c fname (a ++ L ++ b) = AOk o fin ->
+  exists (o' : output) (fin' : rstate),
+  assemble_source t fs c fname (a ++ run ++ b) = AOk o' fin' /\
+  o_blocks o' = o_blocks o /\ o_labels o' = o_labels o /\ same_symbols fin fin'.
+Proof. exact @include_nested_source. Qed.
+
+
+Print Assumptions C16_include_nested_source.
